@@ -137,6 +137,15 @@ theorem C12_covered_parser : Covered parser_reads parser_writes parser_resets :=
 /-- `MibCompiler.compile` keeps all per-call state in locals: it writes no instance field at all -/
 theorem C12_covered_compiler : Covered compiler_reads compiler_writes compiler_resets ∧ compiler_writes = [] := by decide +kernel
 
+/-- **C12_no_class_level_state**: no function or method of the package stores into an object that lives at class level
+(a table assigned in a class body and never re-bound on the instance: `self.X[k] = v`, `self.X.append(..)`, `Cls.X[k] = v`,
+`Cls.X = ..`, or the same through a local bound to it).  Class-level objects are shared by every instance and - the lexer and
+parser dialects being subclasses made at run time - by every dialect, so such a store is state that outlives the object and
+crosses dialects; the table is regenerated from all modules of the package on every run (`fieldflow.shared_class_writes`).
+Stores through a *copy* are not seen by the analysis (and are not shared state unless the copy is shallow over nested objects:
+that residue stays with the history streams). -/
+theorem C12_no_class_level_state : classLevelWrites = [] ∧ 40 ≤ classLevelModules := by decide
+
 /-! unsorted set iterations left in the source; why each is harmless:
 * symtable `list(self._rows)`: `_symtable_rows` is only used for membership tests by the second pass
 * symtable `for sym in self._parentOids`: raises for the first unknown parent found; all of them are unknown, only the one
